@@ -361,6 +361,8 @@ class Sym:
         if isinstance(st, ast.If):
             return self._exec_if(st, env, fr, rest, cont)
         if isinstance(st, (ast.For, ast.AsyncFor)):
+            if not getattr(self, '_linear', False) and self._break_assign_loop(st, env, fr):
+                return None
             returns_inside = not getattr(self, '_linear', False) and self._own_level(st.body + st.orelse, ast.Return)
             summary = self._search_loop(st, env, fr) if returns_inside else None
             self._exec_for(st, env, fr)
@@ -454,6 +456,45 @@ class Sym:
             v = ('call', 'first', (('map', varnames, v, seq, c),))
         return exists, v
 
+    def _break_assign_loop(self, st, env: _Env, fr: _Frame) -> bool:
+        """`for x in (e1, .., ek): if test(x): v = value(x); break` [`else: raise ..`] over a literal sequence is the chain
+        `if test(e1): v = value(e1) elif test(e2): ..`: the first hit wins.  Binds v and returns True when the loop has this shape."""
+        body = [b for b in st.body if not (isinstance(b, ast.Expr) and isinstance(b.value, ast.Constant))]
+        if len(body) != 1 or not isinstance(body[0], ast.If) or body[0].orelse or not isinstance(st.target, ast.Name):
+            return False
+        inner = body[0].body
+        if len(inner) != 2 or not isinstance(inner[1], ast.Break) or not isinstance(inner[0], ast.Assign) or len(inner[0].targets) != 1 or not isinstance(inner[0].targets[0], ast.Name):
+            return False
+        raises = bool(st.orelse) and isinstance(st.orelse[-1], ast.Raise) and all(isinstance(o_, (ast.Raise, ast.Expr)) for o_ in st.orelse)
+        if st.orelse and not raises:
+            return False
+        seq = self.ev(st.iter, env, fr)
+        if seq[0] not in ('tuple', 'list') or not (0 < len(seq[1]) <= 4):
+            return False
+        uid = next(_uid)
+        var = ('var', f'{st.target.id}#{uid}')
+        benv = _Env(env)
+        benv.set(st.target.id, var)
+        c = self.ev_cond(body[0].test, benv, fr)
+        v = self.ev(inner[0].value, benv, fr)
+        name = inner[0].targets[0].id
+        tests = [substitute(c, {var: e_}) for e_ in seq[1]]
+        vals = [substitute(v, {var: e_}) for e_ in seq[1]]
+        if raises:
+            # no hit raises: on the paths that go on, one of the tests held
+            val = vals[-1]
+            pairs = list(zip(tests[:-1], vals[:-1]))
+        else:
+            prev = env.get(name)
+            if prev is None:
+                return False
+            val = prev
+            pairs = list(zip(tests, vals))
+        for t_, v_ in reversed(pairs):
+            val = ('cond', t_, v_, val)
+        self._assign(inner[0].targets[0], val, env, fr, None)
+        return True
+
     def _has_escape(self, stmts) -> bool:
         """The block contains a statement that leaves it other than by falling through (own level, nested defs excluded)."""
         if getattr(self, '_linear', False):
@@ -537,9 +578,17 @@ class Sym:
         if isinstance(target, ast.Name):
             env.setdeep(target.id, val) if env.has(target.id) and target.id not in env.vars else env.set(target.id, val)
         elif isinstance(target, (ast.Tuple, ast.List)):
+            star = next((i for i, e in enumerate(target.elts) if isinstance(e, ast.Starred)), None)
+            n_t = len(target.elts)
             for i, elt in enumerate(target.elts):
-                if val[0] in ('tuple', 'list') and i < len(val[1]) and not any(isinstance(e, ast.Starred) for e in target.elts):
+                if val[0] in ('tuple', 'list') and i < len(val[1]) and star is None:
                     self._assign(elt, val[1][i], env, fr, None)
+                elif star is not None and i == star:
+                    # *rest takes what the other targets leave
+                    after = n_t - star - 1
+                    self._assign(elt.value, ('slice', val, lit(star) if star else lit(None), lit(-after) if after else lit(None)), env, fr, None)
+                elif star is not None and i > star:
+                    self._assign(elt, ('index', val, lit(i - n_t)), env, fr, None)
                 else:
                     self._assign(elt, ('index', val, lit(i)), env, fr, None)
         elif isinstance(target, ast.Subscript) and isinstance(target.value, ast.Name) and not (env.get(target.value.id) == ('self',)):
@@ -591,8 +640,8 @@ class Sym:
                 env.setdeep(name, ('call', 'append', (cur, v)))
                 return
             if cur is not None and m == 'setdefault' and len(node.args) == 2 and cur[0] == 'acc' and cur[1] == 'dict':
-                # d.setdefault(k, v) as a statement: an entry k -> v (the first one wins where keys repeat; as a mapping of distinct keys the same)
-                self._emit(env, name, ('kv', self.ev(node.args[0], env, fr), self.ev(node.args[1], env, fr)))
+                # d.setdefault(k, v) as a statement: an entry k -> v that does NOT replace an entry already there ('kvs': the first one wins)
+                self._emit(env, name, ('kvs', self.ev(node.args[0], env, fr), self.ev(node.args[1], env, fr)))
                 return
             if cur is not None and m in ('extend', 'update') and len(node.args) == 1 and cur[0] == 'acc' and cur[1] == 'list':
                 self._emit(env, name, ('flat', self.ev(node.args[0], env, fr)))
@@ -664,7 +713,7 @@ class Sym:
             elif cur[0] == 'acc' and cur[1] == 'list':
                 accs[name] = ('list', ())
                 nested[name] = cur
-            elif cur[0] == 'mapdict' or (cur[0] == 'call' and cur[1] == 'merge'):
+            elif cur[0] == 'mapdict' or (cur[0] == 'call' and cur[1] in ('merge', 'first_wins')):
                 # a mapping built before (by an earlier loop / comprehension) receives more entries: union, later wins
                 accs[name] = ('dict', ())
                 prior[name] = cur
@@ -701,9 +750,14 @@ class Sym:
                 built = ('map', varnames, what[1], seq, g)
             elif what[0] == 'flat':
                 built = ('call', 'flatten', (('map', varnames, what[1], seq, g),))
+            elif what[0] == 'kvs':
+                # filled by setdefault: among equal keys the first entry stays (and entries present before the loop stay as well)
+                built = ('call', 'first_wins', (('mapdict', varnames, what[1], what[2], seq, g),))
+                if name in prior:
+                    built = ('call', 'merge', (built, prior[name]))
             else:
                 built = ('mapdict', varnames, what[1], what[2], seq, g)
-            if name in prior:
+            if name in prior and what[0] != 'kvs':
                 built = ('call', 'merge', (prior[name], built))
             if name in nested:
                 # inner loop appending to the accumulator of the enclosing loop: one `extend` emission of the outer iteration
@@ -740,7 +794,7 @@ class Sym:
                         if w1[0] in ('elem', 'flat'):
                             merged = (w1[0], ('cond', a, w1[1], w2[1]))
                         elif w1[1] == w2[1]:
-                            merged = ('kv', w1[1], ('cond', a, w1[2], w2[2]))
+                            merged = (w1[0], w1[1], ('cond', a, w1[2], w2[2]))
                         else:
                             continue
                         ems = [e for k, e in enumerate(ems) if k not in (i, j)]
@@ -861,7 +915,8 @@ class Sym:
                 return False
             if isinstance(st, (ast.For, ast.While, ast.Try)):
                 if isinstance(st, ast.For):
-                    self._exec_for(st, env, fr)
+                    if not self._break_assign_loop(st, env, fr):
+                        self._exec_for(st, env, fr)
                     continue
                 if isinstance(st, ast.Try):
                     # value semantics on the no-exception path (as for straight-line code)
